@@ -40,7 +40,7 @@ def build_tree(rnd, root, fault, placement, st):
     """-> (sheets: rel -> text, faulty: [rel], orphans: [rel])"""
     os.makedirs(root, exist_ok=True)
     n = rnd.choice([2, 3, 4, 5, 6, 8])
-    levels = [".", "sub", os.path.join("sub", "deeper"), "other"]
+    levels = [".", "sub", os.path.join("sub", "deeper"), "other", ".config"]
     sheets = {}
     dbg = (255, 255, 255)
     shared_var = "--shared"
@@ -49,7 +49,7 @@ def build_tree(rnd, root, fault, placement, st):
         lvl = levels[rnd.randrange(min(len(levels), 1 + k))]
         c0 = 'bmnpqrst'[k]
         nm = [f"{c0}{k}.css", f"{c0}{k}.min.css", f"{c0} {k}.css", f"{c0}{k}.v2.final.css", f"{c0}{k}_cms.css", f"{c0}{k}.css.bundle.css",
-              f"{c0}{k}_cmss.css", f"{c0}{k}.css.css"][(k + rnd.randrange(8)) % 8 if k else 0]
+              f"{c0}{k}_cmss.css", f"{c0}{k}.css.css", f".{c0}{k}.css"][(k + rnd.randrange(9)) % 9 if k else 0]
         rel = os.path.normpath(os.path.join(lvl, nm))
         sheet = SS.make_sheet(rnd, premium=st["premium"], default_bg=dbg, rich=False, n_rules=rnd.choice([2, 3, 5, 8]), tag=f"t{k}r",
                               allow={"var", "var-chain", "var-fallback", "var-shared", "invalid", "repeat"})
